@@ -81,6 +81,19 @@ CHECKS = {
             "evaluated at every step of every recorded execution.",
             "Trusted: TLC; the recording model's log (row ids decoded from the input it receives).",
             "DESIGN.md §5 C03"),
+    "C07": (["ModelLife", "ModelLifeMC", "ModelLife_Trace"],
+            "step-shaped TLA+ model of the hook/mode/parameter life-cycle with crash points over call histories (ModelLife.tla) "
+            "model-checked with TLC (safety + liveness, as-found handler coverage as spec-level mutant); every crash point and "
+            "TLC-explored histories injected into the real functions; recorded calls pushed through the model's actions by "
+            "ModelLife_Trace",
+            "TLC enumerates every (function, run, step kind, batch) crash point and all histories of two (quick) / three (thorough) "
+            "calls and checks that every exit leaves no hooks and unchanged parameters. Each crash point is one fault-injection test "
+            "against the real code (k-th forward, k-th reference call, k-th backward rule, failing registration, short args, int X, "
+            "bad target, failing projection); histories run on a shared model and on fresh copies, and hook tables, state_dict bytes, "
+            "probe outputs/gradients and results are compared after every call.",
+            "Trusted: TLC; crash points that cannot be injected through the API (accumulate; slice/reqgrad/delta beyond the first "
+            "batch of the first run) are reported as unrealisable; PROGRAMS table in the worker is verified by a dry run.",
+            "DESIGN.md §5 C07"),
 }
 
 ALL = ["C%02d" % i for i in range(1, 21)]
